@@ -309,6 +309,29 @@ pub fn option_product(models: &[ModelId], vias: &dyn Fn(ModelId) -> Vec<Via>, re
             }
         }
     }
+    // the geometries of common panel modules (a model's init may look at the window it is given)
+    for &model in models {
+        for via in vias(model) {
+            for (w, h, ox, oy) in crate::gen::known_geometries(model) {
+                for (i, orient) in [Orient::ALL[0], Orient::ALL[3], Orient::ALL[6]].into_iter().enumerate() {
+                    for reset_pin in if reset_both && matches!(via, Via::Builder(_)) { vec![false, true] } else { vec![false] } {
+                        let mut via = via.clone();
+                        if let Via::Builder(Transport::Spi { buf: 0 }) = via {
+                            via = Via::Builder(Transport::Spi { buf: 5 });
+                        }
+                        let transport = match &via {
+                            Via::Builder(t) => *t,
+                            Via::Direct(_) => Transport::Rec8,
+                        };
+                        out.push(InitCase {
+                            cfg: Config { model, transport, w, h, ox, oy, orient, bgr: i == 1, invert: i == 2, refresh_v: i == 1, refresh_h: false, reset_pin },
+                            via,
+                        });
+                    }
+                }
+            }
+        }
+    }
     out
 }
 
